@@ -95,6 +95,8 @@ class Builder:
             return getattr(self.term(t[1]), t[2])(*[self.inst.v(a) for a in t[3]])
         if k == "l":
             return self.inst.v(t[1])
+        if k == "pfv":          # ("pfv", fname, args): a @predicate function call used as a VALUE
+            return W.PREDICATE_FUNCS[t[1]](*[self.term(a) for a in t[2]])
         if k == "ob":           # ("ob", domkey, index): an object of the world used as a constant
             return self.world[t[1]][t[2]]
         if k == "lb":           # ("lb", "True"/"False"): a boolean constant (kept apart from 1 / 0 in case keys)
@@ -263,6 +265,8 @@ class Ref:
             return getattr(self.value(t[1], env), t[2])(*[self.inst.v(a) for a in t[3]])
         if k == "l":
             return self.inst.v(t[1])
+        if k == "pfv":
+            return REF_PRED[t[1]](*[self.value(a, env) for a in t[2]])
         if k == "ob":
             return self.world[t[1]][t[2]]
         if k == "lb":
@@ -374,6 +378,8 @@ def flatten_terms(x):
 
 
 REF_PRED = {
+    "p_val": lambda x: x.p,
+    "s_val": lambda x: x.s,
     "p_eq": lambda x, k: x.p == k,
     "p_below": lambda x, limit=2: x.p < limit,
     "p_eq_nested": lambda x, k: x.p == k,
@@ -421,6 +427,8 @@ def up_term(t, inst):
         return f"{up_term(t[1], inst)}[{inst.v(t[2])!r}]"
     if k == "c":
         return f"{up_term(t[1], inst)}.{t[2]}({', '.join(repr(inst.v(a)) for a in t[3])})"
+    if k == "pfv":
+        return f"{t[1]}({', '.join(up_term(a, inst) for a in t[2])})"
     if k == "l":
         return repr(inst.v(t[1]))
     if k == "ob":
